@@ -311,7 +311,7 @@ class Gen:
                 rest.append(it)
         self.emit(f"{ind}verus! {{")
         groups = ["prelude_axioms"] + extra_groups
-        self.emit(f"{ind}broadcast use {{" + ", ".join("crate::prelude::" + g_ for g_ in groups) + "};")
+        self.emit(f"{ind}broadcast use {{" + ", ".join(("crate::lemmas::" if g_.endswith("_lemmas") else "crate::prelude::") + g_ for g_ in groups) + "};")
         for it in rest:
             self.item(it, relsrc, contracts, container=None, ind=ind)
         if file_extra:
@@ -723,7 +723,7 @@ class Gen:
             t = toks[sig[p]]
             nxt = toks[sig[p + 1]] if p + 1 < n else None
             # R3a  u16::from_be_bytes(  ->  u16_from_be_bytes(
-            if t.kind == "ident" and t.text in ("u16",) and p + 4 < n and toks[sig[p + 1]].text == ":" and toks[sig[p + 2]].text == ":" \
+            if t.kind == "ident" and t.text in ("u16", "i16", "u32", "i32", "u64", "i64") and p + 4 < n and toks[sig[p + 1]].text == ":" and toks[sig[p + 2]].text == ":" \
                     and toks[sig[p + 3]].text == "from_be_bytes" and toks[sig[p + 4]].text == "(":
                 edits.append((t.start, toks[sig[p + 3]].end, f"{t.text}_from_be_bytes"))
                 self.count("R3_from_be_bytes")
